@@ -26,7 +26,7 @@ def setup(ctx):
         "high-water, 256 KiB, 1 MiB+-1, 8 MiB, random) x body type (bytes position counters / str with multi-byte "
         "chars straddling record boundaries) x source (spy handler, real static file) x level (L2 in-process TLS "
         "sandwich with ciphertext segmentations, and with a bounded pipe (64 KiB) towards readers that stall 0.5-29 "
-        "virtual seconds; L3 live sockets with fast/slow/bursty/delayed readers). "
+        "virtual seconds; files of exactly the configured max_file_size and one byte below it; L3 live sockets with fast/slow/bursty/delayed readers). "
         "distinct = (level, backend, length bucket, type, source, reader); all are non-trivial except length 0."
     )
     ctx.assumptions = [
@@ -36,6 +36,7 @@ def setup(ctx):
     ctx.require("monitor", "streams_compared", 40)
     ctx.require("monitor", "l3_streams_compared", 8)
     ctx.require("monitor", "stalled_reader_streams", 10)
+    ctx.require("monitor", "at_limit_streams", 8)
     ctx.require("backend", "pyopenssl", 10)
     ctx.require("backend", "stdlib", 10)
 
@@ -244,6 +245,40 @@ def run_l3(ctx):
         shutil.rmtree(base, ignore_errors=True)
 
 
+def run_l3_limit(ctx):
+    """Files of exactly the configured maximum size (and one byte less) are served whole."""
+    from vf import live
+
+    rng = ctx.rng("limit")
+    base = tempfile.mkdtemp(prefix="vf-c06l-")
+    try:
+        for limit in (65536, 1 << 20) if ctx.quick() else (4096, 65536, 1 << 20, 3 << 20):
+            root = os.path.join(base, f"root{limit}")
+            os.makedirs(root)
+            contents = {}
+            for delta in (-1, 0, 1):
+                n = limit + delta
+                data = (b"0123456789abcdef" * (n // 16 + 1))[:n]
+                with open(os.path.join(root, f"f{delta}.txt"), "wb") as f:
+                    f.write(data)
+                contents[delta] = data
+            for backend in ("stdlib", "pyopenssl"):
+                for via in ("start_kwarg", "config"):
+                    kw = {"start_kwargs": {"max_file_size": limit}} if via == "start_kwarg" else {"config_kwargs": {"max_file_size": limit}}
+                    with live.LiveServer(root, backend=backend, **kw) as srv:
+                        for delta in (-1, 0, 1):
+                            r = live.fetch_raw(srv.port, f"gemini://localhost/f{delta}.txt\r\n".encode(), timeout=60)
+                            case = {"backend": backend, "len": limit + delta, "btype": "str", "source": f"static:max_file_size={limit}:{via}", "reader": "fast", "relative_to_limit": delta}
+                            if delta <= 0:
+                                compare(ctx, case, b"20 text/plain\r\n" + contents[delta], r["data"], r["eof"], "L3")
+                                ctx.count("monitor", "at_limit_streams")
+                            else:
+                                ctx.count("outcome", f"over-limit:{r['data'][:2].decode('latin-1')}")
+                            ctx.case(("L3-limit", backend, limit, delta, via, r["data"][:2]), True, sample={"level": "L3", **case, "status": r["data"][:2]})
+    finally:
+        shutil.rmtree(base, ignore_errors=True)
+
+
 def run_l2_stalled(ctx):
     """Readers that stall (virtual seconds) while the body is larger than what the pipe holds.
     The server side is the wiring start_server() really passes to loop.create_server() (factory,
@@ -312,3 +347,5 @@ def run(ctx):
     run_l2_stalled(ctx)
     if ctx.shard in (0, 1) or ctx.nshards == 1:
         run_l3(ctx)
+    if ctx.shard == 2 or ctx.nshards == 1:
+        run_l3_limit(ctx)
